@@ -12,7 +12,7 @@ use crate::hir;
 use crate::lift::{self, GlobalLiftEnv, LiftFile};
 use crate::mono::{self, GlobalMonoEnv};
 use crate::pipeline::compile_error;
-use crate::pipeline::pipeline::{CompilationError, parse_ast_file};
+use crate::pipeline::pipeline::{CompilationError, parse_package_file};
 
 pub struct PackageInputs {
     pub package: String,
@@ -136,7 +136,7 @@ fn read_source_files(
     for path in paths {
         let src = fs::read_to_string(&path)
             .map_err(|err| compile_error(format!("failed to read {}: {}", path.display(), err)))?;
-        let ast = parse_ast_file(&path, &src)?;
+        let ast = parse_package_file(&path, &src)?;
         if ast.package.0 != package {
             return Err(compile_error(format!(
                 "package mismatch in {}: expected {}, found {}",
